@@ -102,7 +102,12 @@ def flag_rules(rep, prog, impl, name):
                 (cs["bb"] in b.reachable(bi, unwind=False) or bi in b.reachable(cs["bb"], unwind=False))
                 and G.must_pass(b, bi, [cs["bb"]], rets) if b.dominates(bi, cs["bb"]) else True
                 for cs in col_stores)
-            ok = g_flag and g_some and incr_by_one and paired and same_region and not in_cycle(b, bi)
+            # once per colour write: no cycle runs through the increment without passing a colour store, and none through a colour
+            # store without passing the increment (the per-fragment loop itself may be a `for` loop in this very body)
+            cs_bbs = {cs["bb"] for cs in col_stores}
+            once = bi not in b.reachable_from_succs(bi, removed_blocks=cs_bbs - {bi}, unwind=False) or bi in cs_bbs
+            once = once and all(cs["bb"] == bi or cs["bb"] not in b.reachable_from_succs(cs["bb"], removed_blocks={bi}, unwind=False) for cs in col_stores)
+            ok = g_flag and g_some and incr_by_one and paired and same_region and once
             rep.inst("C07.F2", "%s: Throughput.o update at %s: +1=%s under color_write=%s under Some=%s paired with colour store=%s"
                      % (name, b.where(bi, si), incr_by_one, g_flag, g_some, paired and same_region), config=cfg)
             if not ok:
@@ -148,6 +153,10 @@ def flag_rules(rep, prog, impl, name):
             i_core = i_core[1]
         ok_i = any(i_core[0] == "bin" and i_core[1].startswith("Sub") and T.strip(i_core[2]) == T.strip(r[2][1]) and T.strip(i_core[3]) == T.strip(r[2][0])
                    for r in ranges)
+        # ... or the length of that very range (Range::len / ExactSizeIterator::len)
+        ic = T.strip(i_core, sites=True, refs=True)
+        if not ok_i and ic[0] == "call" and ic[1].split(" => ")[0].rsplit("::", 1)[-1] == "len" and ic[2]:
+            ok_i = any(T.strip(ic[2][0], sites=True, refs=True) == T.strip(r, sites=True, refs=True) for r in ranges)
         ok_o = o_t == ("const", "usize", 0)
         rep.inst("C07.F2", "%s: Throughput init i=%s o=%s ; spans cut with %s" % (name, T.show(i_t), T.show(o_t), [T.show(r) for r in ranges][:2]), config=cfg)
         if not ok_i:
@@ -171,9 +180,24 @@ def flag_rules(rep, prog, impl, name):
     return n_col, n_dep, n_cnt
 
 
+def _render_inlined(prog):
+    """render() with its private same-file helpers seen through (a cull predicate, a per-vertex function), the named anchors kept"""
+    r0 = prog.body(RENDER)
+    keep = ("is_backface", "depth_sort")
+    return prog.inlined(r0, depth=2, pred=lambda cb: (not cb.is_pub) and cb.file == r0.file and cb.path.rsplit("::", 1)[-1] not in keep and not cb.path.rsplit("::", 1)[-1].startswith("sort"))
+
+
 def cull_rules(rep, prog):
     cfg = prog.config
-    rn = prog.body(RENDER)
+    rn0 = prog.body(RENDER)
+    sl0 = T.Slicer(rn0)
+    is_fc0 = lambda p: T.contains(p, lambda f: f[0] == "field" and f[2] == "Context.face_cull")  # noqa: E731
+    # Form B: the cull decision is a call to a local predicate fed with ctx.face_cull (`if is_culled(ctx.face_cull, &vs) { continue }`)
+    pred_edges = G.bool_edges(rn0, sl0, lambda d: d[0] == "call" and any(is_fc0(a_) for a_ in d[2]) and prog.lookup(d[1].split(" => ")[-1]) is not None)
+    some0, none0 = G.option_edges(rn0, sl0, lambda p: p[0] == "field" and p[2] == "Context.face_cull")
+    if pred_edges and not (some0 or none0):
+        return cull_rules_predicate(rep, prog, rn0, sl0, pred_edges)
+    rn = _render_inlined(prog)
     sl = T.Slicer(rn)
     fills = [bi for bi, _t in rn.calls(lambda c: facts.callee_matches(c, "raster::tri_fill"))]
     heads = [bi for bi, _t in rn.calls(lambda c: facts.callee_matches(c, "Iterator::next"))]
@@ -256,8 +280,14 @@ def cull_rules(rep, prog):
     for bi, t in rn.calls(lambda c: facts.callee_matches(c, "render::is_backface")):
         a = T.strip(sl.operand(t["args"][0]), sites=False, refs=True, casts=True)
         same = a in fill_args
-        screen = T.contains(a, lambda q: q[0] == "agg" and q[1].startswith("closure:") and
-                            any(True for _b, _t in prog.bodies[q[1][8:]].calls(lambda c: "mat::Matrix" in c["path"] and c["path"].endswith("::apply"))))
+        def applies_matrix(cpath):
+            cb_ = prog.bodies.get(cpath)
+            if cb_ is None:
+                return False
+            cbi = prog.inlined(cb_, depth=2, pred=lambda x: (not x.is_pub) and x.file == cb_.file)
+            return any(True for _b, _t in cbi.calls(lambda c: "mat::Matrix" in c["path"] and c["path"].endswith("::apply")))
+        screen = T.contains(a, lambda q: (q[0] == "agg" and q[1].startswith("closure:") and applies_matrix(q[1][8:])) or
+                            (q[0] == "fnptr" and applies_matrix(q[1].split(" => ")[-1])))
         rep.inst("C07.F3", "is_backface at %s inspects the triangle handed to tri_fill: %s (screen-space, after the viewport transform: %s)" % (rn.where(bi, None), same, screen), config=cfg)
         if not (same and screen):
             rep.violate("C07.F3", "F3|winding-space", rn.where(bi, None),
@@ -266,9 +296,66 @@ def cull_rules(rep, prog):
     return fills, heads
 
 
+def cull_rules_predicate(rep, prog, rn, sl, pred_edges):
+    """Form B of F3: `if <pred>(ctx.face_cull, &vs) { continue }`. The predicate is evaluated abstractly for every
+    (cull mode, is_backface outcome): it must be false for None, is_backface for Back and its negation for Front; in render() the
+    true side must not reach tri_fill in this iteration and the false side must pass it."""
+    cfg = prog.config
+    fills = [bi for bi, _t in rn.calls(lambda c: facts.callee_matches(c, "raster::tri_fill"))]
+    heads = [bi for bi, _t in rn.calls(lambda c: facts.callee_matches(c, "Iterator::next"))]
+    rep.floor("C07.F3.anchors", min(len(fills), len(heads)), 1, "tri_fill call and loop head in render()")
+    rets = G.return_blocks(rn)
+    FC = "retrofire_core::render::ctx::FaceCull"
+    for bb, tr, fa in pred_edges:
+        dterm = T.strip(sl.operand(rn.blocks[bb]["term"]["discr"]), sites=False, refs=True)
+        calls = [q for q in T.walk(dterm) if q[0] == "call" and prog.lookup(q[1].split(" => ")[-1]) is not None]
+        fbody = prog.lookup(calls[0][1].split(" => ")[-1])
+        fc_idx = [i_ for i_, a_ in enumerate(calls[0][2]) if T.contains(a_, lambda f: f[0] == "field" and f[2] == "Context.face_cull")][0]
+        table = {}
+        for mode in ("None", "Back", "Front"):
+            for bf in (0, 1):
+                it = A.Interp(prog, models={"render::is_backface": lambda *_a, bf=bf: bf})
+                mv = A.NONE if mode == "None" else A.some(("adt", FC, mode, []))
+                args = [A.UNKNOWN] * fbody.argc
+                args[fc_idx] = mv
+                try:
+                    r = it.call_body(fbody, args)
+                except (A.Undecided, A.Panic) as e:
+                    raise common.Infra("C07.F3: the cull predicate %s could not be evaluated abstractly (%s)" % (fbody.path, e))
+                if not isinstance(r, int):
+                    raise common.Infra("C07.F3: the cull predicate %s returned an undecided value" % fbody.path)
+                table["%s/%s" % (mode, "backface" if bf else "frontface")] = bool(r)
+        want = {"None/backface": False, "None/frontface": False, "Back/backface": True, "Back/frontface": False, "Front/backface": False, "Front/frontface": True}
+        rep.inst("C07.F3", "cull predicate %s evaluated over (mode, is_backface): culled = %s" % (fbody.path.rsplit("::", 1)[-1], table), config=cfg)
+        for k_ in want:
+            if table[k_] != want[k_]:
+                rep.violate("C07.F3", "F3|%s" % k_, fbody.where(), "with face_cull = %s and a %s triangle, the triangle is %s (expected %s)"
+                            % (k_.split("/")[0], k_.split("/")[1], "culled" if table[k_] else "drawn", "culled" if want[k_] else "drawn"), config=cfg)
+        # in render(): culled side never fills in this iteration, kept side always does
+        culled_fills = any(any(f in rn.reachable(dst, removed_blocks=set(heads), unwind=False) for f in fills) for (_s, dst, _l) in tr)
+        kept_skips = False
+        for (_s, dst, _l) in fa:
+            r_ = rn.reachable(dst, removed_blocks=set(fills), unwind=False)
+            if any(h in r_ for h in heads) or any(x in r_ for x in rets):
+                kept_skips = True
+        rep.inst("C07.F3", "in render(): a culled triangle reaches tri_fill: %s; a kept triangle can skip tri_fill: %s" % (culled_fills, kept_skips), config=cfg)
+        if culled_fills:
+            rep.violate("C07.F3", "F3|culled-drawn", rn.where(bb, None), "a triangle the cull predicate rejects still reaches tri_fill", config=cfg)
+        if kept_skips:
+            rep.violate("C07.F3", "F3|None/dropped", rn.where(bb, None), "a triangle the cull predicate keeps can reach the next iteration without being handed to tri_fill", config=cfg)
+        # winding space: what the predicate (and through it is_backface) inspects is the screen-space triangle handed to tri_fill
+        fill_args = [T.strip(sl.operand(t["args"][0]), sites=False, refs=True, casts=True) for _bi, t in rn.calls(lambda c: facts.callee_matches(c, "raster::tri_fill"))]
+        other = [T.strip(a_, sites=False, refs=True, casts=True) for i_, a_ in enumerate(calls[0][2]) if i_ != fc_idx]
+        same = any(a_ in fill_args for a_ in other)
+        rep.inst("C07.F3", "the cull predicate inspects the triangle handed to tri_fill: %s" % same, config=cfg)
+        if not same:
+            rep.violate("C07.F3", "F3|winding-space", rn.where(bb, None), "the cull decision is not taken on the screen-space vertices that are rasterised", config=cfg)
+    return fills, heads
+
+
 def stats_rules(rep, prog, fills, heads):
     cfg = prog.config
-    rn = prog.body(RENDER)
+    rn = _render_inlined(prog)
     sl = T.Slicer(rn)
     rets = G.return_blocks(rn)
     found = {}
